@@ -490,6 +490,7 @@ package core
 //@ func PathParameters(path)
 //@   property C03
 //@   modifies nothing
+//@   ensures 0 <= result0.off
 //@   ensures[C03,@empty-path-parameter] imp(result1 == nil, forallp(j, at(result0, j), imp(result0.off <= j && j < result0.off + len(result0), at(result0, j).parameter != "")))
 //@   ensures[C03,@duplicated-path-parameter] imp(result1 == nil, forallp(i, j, at(result0, i), at(result0, j), imp(result0.off <= i && i < j && j < result0.off + len(result0),
 //@       at(result0, i).parameter != at(result0, j).parameter)))
@@ -547,7 +548,7 @@ package core
 
 //@ func (*JApiCore).addHTTPMethod(core, d)
 //@   property C03,C01
-//@   requires handlerPre(core, d) && parentOK(d)
+//@   requires handlerPre(core, d) && parentOK(d) && core.similarPaths != nil
 //@   modifies anything
 //@   keeps directive.Directive, fs.File
 //@   ensures[C03,@setter-error-reported] imp(setterFailed(core, old(core.catalog), old(core.catalog.gFailed)), result != nil)
@@ -618,7 +619,7 @@ package core
 //@   ensures imp(result != nil, result.File != nil)
 //@ func (*JApiCore).addURL(core, d)
 //@   property C03,C01
-//@   requires handlerPre(core, d) && parentOK(d) && d.type_ == directive.URL && core.uniqURLPath != nil
+//@   requires handlerPre(core, d) && parentOK(d) && d.type_ == directive.URL && core.uniqURLPath != nil && core.similarPaths != nil
 //@   modifies anything
 //@   keeps directive.Directive, fs.File
 //@   ensures[C03,@forbidden-annotation] imp(d.Annotation != "", atKeyword(result, d))
